@@ -517,6 +517,11 @@ theorem allSpec_succ (g : Grammar) (inp : Input) (hg : GrammarWF g) (n : Nat) (i
       simp only [eval]
       have h1 := ih.eval e pos r { st with vers := v :: st.vers } (inv_vers hi _)
       exact ⟨inv_vers h1.1 _, fun hw => h1.2.1 (by simpa [WF] using hw), fun hs => by simp [Still] at hs⟩
+    | kwGuard w =>
+      simp only [eval]
+      split
+      · exact Spec.err hi
+      · exact Spec.okNil hi
     | ifDir a b =>
       simp only [eval]
       split
